@@ -34,6 +34,8 @@ func c13(c *core.Check) {
 	c13ResumedRowShift(c)
 	c13MaxStart(c)
 	c13TestedSide(c)
+	c13HeaderFooterAttempts(c)
+	c13FreshColumnPositions(c)
 
 	r3 := c.Rule("R3", "the table layout code mirrors its side-symmetric assignments, sums margins, paddings and borders with consistent sides, and passes its named arguments in order", 8)
 	tfiles := map[string]bool{"tables.go": true}
@@ -879,6 +881,10 @@ func valueText(v ssa.Value) string {
 		if x.Op == token.MUL {
 			if fa, ok := x.X.(*ssa.FieldAddr); ok {
 				return fmt.Sprintf("%s.#%d", valueText(fa.X), fa.Field)
+			}
+			switch a := x.X.(type) {
+			case *ssa.Alloc, *ssa.FreeVar, *ssa.Global, *ssa.Parameter:
+				return "*" + a.Name()
 			}
 		}
 	case *ssa.FieldAddr:
